@@ -1,6 +1,7 @@
 import Labella.Driver.LayoutCmd
 import Labella.Driver.TextCmd
 import Labella.Driver.CalCmd
+import Labella.Driver.ScaleCmd
 /-! Line-protocol driver: one case per line in, one verdict line out.  A line that cannot be parsed is
 answered `bad-line` (an infrastructure error for the harness, never a default verdict). -/
 open Labella.Driver
@@ -20,6 +21,11 @@ def dispatch (line : String) : String :=
     | "tticks" :: rest => tticksCmd rest
     | "tnice" :: rest => tniceCmd rest
     | "tscale" :: rest => tscaleCmd rest
+    | "lin" :: rest => linCmd rest
+    | "linmono" :: rest => linMonoCmd rest
+    | "lticks" :: rest => lticksCmd rest
+    | "lnice" :: rest => lniceCmd rest
+    | "lhist" :: rest => lhistCmd rest
     | _ => none
   r.getD "bad-line"
 
